@@ -206,10 +206,10 @@ func (ex *Exec) frameObligations(fr *Frame, fc *FuncContract, final *State, entr
 					add(memKey(u.Elem(), j, lf), sliceArr(base))
 				}
 			case *types.Map:
-				dom, ln, vals, _, _ := mapKeys(base.T)
-				add(dom, base.Term())
-				add(ln, base.Term())
-				for _, k := range vals {
+				mi := mapKeys(base.T)
+				add(mi.dom, base.Term())
+				add(mi.ln, base.Term())
+				for _, k := range mi.vals {
 					add(k, base.Term())
 				}
 			case *types.Pointer:
